@@ -888,7 +888,17 @@ func (p *Parser) inferExprType(mod *sysl.Module,
 }
 
 func (p *Parser) inferTypes(mod *sysl.Module, appName string) {
-	for viewName, view := range mod.Apps[appName].Views {
+	// Views are visited in name order and the anonymous-type counter runs on across them: with a
+	// map-order walk restarting at 0, the AnonType_N__ of one view replaced that of another and
+	// which one survived changed from run to run.
+	viewNames := make([]string, 0, len(mod.Apps[appName].Views))
+	for viewName := range mod.Apps[appName].Views {
+		viewNames = append(viewNames, viewName)
+	}
+	sort.Strings(viewNames)
+	anonCount := 0
+	for _, viewName := range viewNames {
+		view := mod.Apps[appName].Views[viewName]
 		if syslutil.HasPattern(view.Attrs, "abstract") {
 			continue
 		}
@@ -896,7 +906,7 @@ func (p *Parser) inferTypes(mod *sysl.Module, appName string) {
 			logrus.Warnf("view %s expression should be of type transform", viewName)
 			continue
 		}
-		p.inferExprType(mod, appName, view.Expr, true, 0, viewName, viewName, view.GetRetType())
+		_, anonCount, _ = p.inferExprType(mod, appName, view.Expr, true, anonCount, viewName, viewName, view.GetRetType())
 	}
 }
 
